@@ -45,9 +45,15 @@ type world struct {
 	lastPlain []*gocql.HostInfo
 	// third round: session keyspace + keyspace metadata (tables recomputed by the code itself), live iterators,
 	// concurrent bursts
-	sessKs  string            // "" = a keyspace no query names
-	ksMeta  map[string]string // keyspace -> "local" | replication factor of SimpleStrategy (absent: unknown keyspace)
-	injSess bool              // a `repl` line installed a table for the session keyspace (hook, not the code's path)
+	sessKs string            // "" = a keyspace no query names
+	ksMeta map[string]string // keyspace -> "local" | replication factor of SimpleStrategy (absent: unknown keyspace)
+	// held: the keyspaces the policy holds a replica table for (possibly an empty one) - by the op lines: installed by a
+	// `repl` line or computed by updateReplicas with a usable strategy; these are the keyspaces the repaired code
+	// (KF-C10-4: updateAllReplicas) recomputes on every change of the policy's host list, besides the session keyspace
+	held map[string]bool
+	// inj: the keyspaces whose CURRENT table was installed by a `repl` line (hook, not the code's path) and has not been
+	// recomputed by the policy since
+	inj     map[string]bool
 	slots   map[int]*slot
 	epoch   int          // number of mutating ops so far
 	taint   map[int]bool // hosts with non-commuting concurrent calls not yet settled by a sequential add/remove
@@ -258,12 +264,36 @@ func (w *world) taHostsSpec() []*gocql.HostInfo {
 }
 
 // specFresh: the replica list of a query on keyspace ks is guaranteed fresh - it comes from the token ring
-// (no table) or from the table of the SESSION keyspace, which AddHost / RemoveHost recompute
+// (no table) or from a table the policy computed itself: after the repair of KF-C10-4 AddHost / RemoveHost
+// recompute the table of EVERY held keyspace. Not fresh: a table a `repl` line installed (hook) that the policy
+// has not recomputed since.
 func (w *world) specFresh(ks string) bool {
 	if ks == "-" {
 		return true
 	}
-	return len(w.tables["ks"+ks]) == 0 || ("ks"+ks == w.sessKs && !w.injSess)
+	return len(w.tables["ks"+ks]) == 0 || !w.inj["ks"+ks]
+}
+
+// specRefreshAll: what updateAllReplicas must produce - the session keyspace and every other held keyspace
+// recomputed from the hosts the history knows (a keyspace that is unknown / has no usable strategy loses its table
+// and is no longer held)
+func (w *world) specRefreshAll() {
+	if !w.isTA || !w.partSet {
+		return
+	}
+	var keys []string
+	for ks := range w.held {
+		if ks != w.sessKs {
+			keys = append(keys, ks)
+		}
+	}
+	sort.Strings(keys)
+	if w.sessKs != "" {
+		keys = append([]string{w.sessKs}, keys...)
+	}
+	for _, ks := range keys {
+		w.specRefresh(ks)
+	}
 }
 
 // specRefresh: the harness' own SimpleStrategy placement (Cassandra: walk the ring clockwise from the token,
@@ -275,10 +305,13 @@ func (w *world) specRefresh(ksName string) {
 	}
 	delete(w.tables, ksName)
 	delete(w.tableDup, ksName)
+	delete(w.inj, ksName)
+	delete(w.held, ksName)
 	m, ok := w.ksMeta[ksName]
 	if !ok || m == "local" {
 		return
 	}
+	w.held[ksName] = true
 	rf := atoi(m)
 	type rt struct {
 		tok int
@@ -310,7 +343,7 @@ func (w *world) specRefresh(ksName string) {
 	}
 	w.tables[ksName] = tab
 	if len(tab) == 0 {
-		// an empty table is held but never consulted (replicasFor of an empty table is nil)
+		// an empty table is held (w.held) but never consulted (replicasFor of an empty table is nil)
 		delete(w.tables, ksName)
 	}
 }
@@ -497,7 +530,7 @@ func (w *world) exec(op string) (res string) {
 		w.tableDup = map[string]bool{}
 		w.hot = false
 		w.lastPlain = nil
-		w.sessKs, w.ksMeta, w.injSess = "", map[string]string{}, false
+		w.sessKs, w.ksMeta, w.held, w.inj = "", map[string]string{}, map[string]bool{}, map[string]bool{}
 		w.slots, w.epoch, w.taint, w.pending, w.mutLog = map[int]*slot{}, 0, map[int]bool{}, nil, nil
 		w.poisoned = false
 		if w.isTA {
@@ -641,9 +674,8 @@ func (w *world) exec(op string) (res string) {
 		}
 		if w.isTA {
 			if gocql.VerifTASetReplicas(w.pol, "ks"+f[1], toks, hs) {
-				if "ks"+f[1] == w.sessKs {
-					w.injSess = true
-				}
+				w.held["ks"+f[1]] = true
+				w.inj["ks"+f[1]] = true
 				tab := make([]tabEntry, len(hs))
 				for i := range hs {
 					// the harness keeps its OWN copy of every replica list (the policy must not be able to change the specification)
@@ -1072,8 +1104,8 @@ func (w *world) exec(op string) (res string) {
 			}
 		}
 		w.pending = calls
-		if changedT && w.sessKs != "" {
-			w.specRefresh(w.sessKs)
+		if changedT {
+			w.specRefreshAll()
 		}
 		return "ok"
 	case "settle":
@@ -1132,8 +1164,8 @@ func (w *world) exec(op string) (res string) {
 					}
 				}
 			}
-			if resolved && w.sessKs != "" {
-				w.specRefresh(w.sessKs)
+			if resolved {
+				w.specRefreshAll()
 			}
 		}
 		if !same {
@@ -1174,8 +1206,9 @@ func (w *world) lookupKs(ks string) (string, interface{}, bool) {
 	return "org.apache.cassandra.locator.SimpleStrategy", m, true
 }
 
-// call: one notifier call on the real policy + the history; the harness' own copy of the session keyspace's
-// table is recomputed when the call changes the set of hosts the policy knows
+// call: one notifier call on the real policy + the history; the harness' own copy of every held table (the
+// session keyspace's and every other held keyspace's: updateAllReplicas, repair of KF-C10-4) is recomputed when
+// the call changes the set of hosts the policy knows
 func (w *world) call(ev string, id int, h *gocql.HostInfo) {
 	var tBefore []*gocql.HostInfo
 	al := w.isTA && w.alias()
@@ -1194,7 +1227,7 @@ func (w *world) call(ev string, id int, h *gocql.HostInfo) {
 	case "hdown":
 		w.pol.HostDown(h)
 	}
-	if !w.isTA || w.sessKs == "" || (ev != "add" && ev != "remove") {
+	if !w.isTA || (ev != "add" && ev != "remove") {
 		return
 	}
 	changed := w.stat(id).known != before
@@ -1208,7 +1241,7 @@ func (w *world) call(ev string, id int, h *gocql.HostInfo) {
 		}
 	}
 	if changed {
-		w.specRefresh(w.sessKs)
+		w.specRefreshAll()
 	}
 }
 
@@ -1278,13 +1311,14 @@ func (w *world) exclusion(reps []*gocql.HostInfo, known, fresh bool) string {
 	if known {
 		for _, h := range w.specHead(reps) {
 			st := w.stat(w.ids[h])
-			// KF-C11-5, exactly: (b) reported down while its state is up; (a) removed / never added, in a replica list
-			// that is not recomputed on topology changes (the table of a keyspace other than the session's)
+			// KF-C11-5 (case (b), all that is left of it after the repair of KF-C10-4): reported down while its state is up
 			if st.last == "hdown" {
 				return "stale-down"
 			}
+			// not a finding but an assumption on the hook: a table installed by a `repl` line (and not recomputed by the
+			// policy since) lists a host the policy does not know (removed / never added)
 			if !st.known && !fresh {
-				return "stale-otherks"
+				return "inj-unknown"
 			}
 		}
 	}
@@ -1326,8 +1360,8 @@ func (w *world) oracle(got []*gocql.HostInfo, nHead int, dupReps bool, headAny [
 			if w.taint[id] {
 				continue // non-commuting concurrent calls: either outcome is accepted
 			}
-			// KF-C11-5, exactly: a stale replica is excused if it was reported down (state up), or is unknown in a
-			// replica list that is not recomputed on topology changes
+			// KF-C11-5 (b), exactly: a stale replica is excused if it was reported down (state up); besides, an unknown
+			// host in a table that a `repl` line installed and the policy has not recomputed since (hook, not the code)
 			excused := inHead[h] && (st.last == "hdown" || (!st.known && !fresh))
 			if st.expected(h.IsUp()) {
 				if seen[h] == 0 {
@@ -1494,11 +1528,28 @@ func (g *gen) scenario(maxHosts, nOps int) {
 			g.emit(fmt.Sprintf("ksmeta %d %d", 1-g.sess, 1+r.Intn(3)), "ksmeta", false)
 		}
 	}
+	// another third: no session keyspace, but the replication of keyspace 0 and / or 1 is known to the metadata, so that
+	// KeyspaceChanged makes the policy compute their tables itself (and the repaired code recompute them on ring changes)
+	otherKs := g.ta && g.sess < 0 && r.Intn(2) == 0
+	if otherKs {
+		for k := 0; k < 2; k++ {
+			if r.Intn(3) != 0 {
+				g.emit(fmt.Sprintf("ksmeta %d %d", k, 1+r.Intn(3)), "ksmeta", false)
+			}
+		}
+	}
 	// most scenarios start with most hosts added
 	if r.Intn(5) != 0 {
 		for id := 1; id <= g.n; id++ {
 			if r.Intn(6) != 0 {
 				g.emit(fmt.Sprintf("add %d", id), "add", true)
+			}
+		}
+	}
+	if otherKs {
+		for k := 0; k < 2; k++ {
+			if r.Bool() {
+				g.emit(fmt.Sprintf("kschg %d", k), "kschg", true)
 			}
 		}
 	}
@@ -1522,7 +1573,7 @@ func (g *gen) scenario(maxHosts, nOps int) {
 			if g.ta {
 				g.repl()
 			}
-		case x < 47 && g.sess >= 0:
+		case x < 47 && (g.sess >= 0 || otherKs):
 			switch r.Intn(4) {
 			case 0:
 				g.emit(fmt.Sprintf("kschg %d", r.Intn(3)), "kschg", true)
@@ -1539,11 +1590,12 @@ func (g *gen) scenario(maxHosts, nOps int) {
 
 // sessionScenario (family "which replica tables does a topology change refresh"): token-aware policy whose SESSION
 // keyspace 0 has known replication (SimpleStrategy rf 0..3, sometimes LocalStrategy), keyspace 1 known to the
-// metadata too (its table only changes on KeyspaceChanged), keyspace 2 unknown; 3..7 hosts with 1..2 tokens, no two
+// metadata too (its table appears with KeyspaceChanged and - repair of KF-C10-4 - is recomputed on every change of the
+// policy's host list from then on), keyspace 2 unknown; 3..7 hosts with 1..2 tokens, no two
 // host objects on one address; AddHost / RemoveHost / HostUp / HostDown (states following the session's habit most of
 // the time), metadata changes, KeyspaceChanged, table snapshots, and after every call routed full drains on the three
-// keyspaces: `offer` unless an excluded condition holds - a removed host in the SESSION keyspace's replica head is
-// NOT excluded (the code recomputes that table), only in the other keyspaces' (KF-C11-5a)
+// keyspaces: `offer` unless an excluded condition holds - a removed host in the replica head of ANY keyspace is NOT
+// excluded (the code recomputes every held table; former case (a) of KF-C11-5)
 func (g *gen) sessionScenario() {
 	r := g.r
 	g.kind = []string{"rr", "dc", "rack"}[r.Intn(3)]
@@ -1621,7 +1673,8 @@ func (g *gen) sessionScenario() {
 
 // interleaveScenario (family "several Pick iterators alive at once"): a policy (token-aware 4 of 5, with
 // ShuffleReplicas every other time) over 4..7 hosts, replica table of keyspace 0 installed through the hook
-// (2..3 token ranges, 2..3 replicas) or computed by the code (session keyspace); rounds of iterators over the SAME
+// (2..3 token ranges, 2..3 replicas) or computed by the code (session keyspace / another keyspace with a readable
+// schema after KeyspaceChanged); rounds of iterators over the SAME
 // routing key whose NextHost calls are interleaved: A1 B* A* - A1 B1 A2 B2 ... - A partially, a new Pick drained
 // (the executor's retry pattern), A continued - three iterators in a random schedule - A1 B1 then both drained as
 // spec-backed `offerit`. Every iterator alone must satisfy the property (checked by the harness on what the
@@ -1646,16 +1699,30 @@ func (g *gen) interleaveScenario(idx int) {
 		}
 		g.emit(fmt.Sprintf("host %d %d %d %d %d", id, id, dc, rack, id*100), "host", false)
 	}
-	useSess := g.ta && r.Intn(3) == 0
+	// the replica table of keyspace 0: computed by the code for the SESSION keyspace / computed by the code for a keyspace
+	// that is not the session's (readable schema + KeyspaceChanged; recomputed on ring changes by the repaired code) /
+	// installed through the hook (lives until the next change of the policy's host list)
+	tabMode := r.Intn(3)
+	useSess := g.ta && tabMode == 0
+	useOther := g.ta && tabMode == 1
 	if useSess {
 		g.sess = 0
 		g.emit("sessks 0", "sessks", false)
 		g.emit(fmt.Sprintf("ksmeta 0 %d", 2+r.Intn(2)), "ksmeta", false)
 	}
+	if useOther {
+		if r.Bool() {
+			g.emit("sessks 1", "sessks", false)
+		}
+		g.emit(fmt.Sprintf("ksmeta 0 %d", 2+r.Intn(2)), "ksmeta", false)
+	}
 	for id := 1; id <= g.n; id++ {
 		g.emit(fmt.Sprintf("add %d", id), "add", true)
 	}
-	if g.ta && !useSess {
+	if useOther {
+		g.emit("kschg 0", "kschg", true)
+	}
+	if g.ta && !useSess && !useOther {
 		// 2..3 token ranges with 2..3 distinct replicas each
 		var parts []string
 		for t := 0; t < 2+r.Intn(2); t++ {
@@ -1828,6 +1895,12 @@ func (g *gen) burstScenario(idx, rounds int) {
 	for id := 1; id <= base; id++ {
 		g.emit(fmt.Sprintf("add %d", id), "add", true)
 	}
+	if g.ta {
+		// keyspace 1: not the session's, readable schema, table computed on KeyspaceChanged - the repaired code recomputes
+		// it with every call of a burst that changes the host list
+		g.emit(fmt.Sprintf("ksmeta 1 %d", 2+r.Intn(2)), "ksmeta", false)
+		g.emit("kschg 1", "kschg", true)
+	}
 	cls := "/" + g.kind + "/ta" + b01(g.ta)
 	burst := func(kind string, calls []string) {
 		if len(calls) < 2 {
@@ -1851,6 +1924,11 @@ func (g *gen) burstScenario(idx, rounds int) {
 				}
 			}
 			g.pickWith("0", strconv.Itoa(r.Intn(g.n*10)), 1000, true)
+			g.pickWith("1", strconv.Itoa(r.Intn(g.n*10)), 1000, true)
+			if len(calls) > 0 {
+				c := calls[0]
+				g.pickWith("1", c[strings.Index(c, ":")+1:]+"0", 1000, true)
+			}
 		}
 	}
 	// k distinct hosts satisfying a condition on their history
@@ -2116,10 +2194,22 @@ func (g *gen) rotationScenario(idx int) {
 	if shape[0]+shape[1]+shape[2] == 0 {
 		shape[0] = 1 + r.Intn(5)
 	}
-	sessTable := variant == 2 && r.Intn(3) == 0
+	// routed variant, the replica table of keyspace 0: computed by the code for the session keyspace / computed by the code
+	// for a keyspace that is NOT the session's (readable schema, KeyspaceChanged once the hosts are there; the repaired code
+	// recomputes it on every ring change) / installed through the hook (dropped by the next ring change; now and then
+	// installed again) / none (ring owner)
+	tabMode := r.Intn(3)
+	sessTable := variant == 2 && tabMode == 0
+	otherTable := variant == 2 && tabMode == 1
 	if sessTable {
 		g.sess = 0
 		g.emit("sessks 0", "sessks", false)
+		g.emit(fmt.Sprintf("ksmeta 0 %d", 1+r.Intn(3)), "ksmeta", false)
+	}
+	if otherTable {
+		if r.Bool() {
+			g.emit("sessks 1", "sessks", false)
+		}
 		g.emit(fmt.Sprintf("ksmeta 0 %d", 1+r.Intn(3)), "ksmeta", false)
 	}
 	place := func(t int) (int, int) { // dc, rack of a host of tier t
@@ -2156,7 +2246,10 @@ func (g *gen) rotationScenario(idx int) {
 	for _, j := range rngPerm(r, len(ids)) {
 		g.emit(fmt.Sprintf("add %d", ids[j]), "add", true)
 	}
-	if variant == 2 && !sessTable && r.Intn(4) != 0 {
+	if otherTable {
+		g.emit("kschg 0", "kschg", true)
+	}
+	install := func() {
 		var parts []string
 		for t := 0; t < 2+r.Intn(2); t++ {
 			k := 1 + r.Intn(3)
@@ -2170,6 +2263,10 @@ func (g *gen) rotationScenario(idx int) {
 			parts = append(parts, fmt.Sprintf("%d:%s", (g.n*100/3+1)*(t+1), strings.Join(l, ",")))
 		}
 		g.emit("repl 0 "+strings.Join(parts, " "), "repl", false)
+	}
+	hookTable := variant == 2 && !sessTable && !otherTable && r.Intn(4) != 0
+	if hookTable {
+		install()
 	}
 	if r.Bool() {
 		n := uint64(r.Intn(1000))
@@ -2226,6 +2323,9 @@ func (g *gen) rotationScenario(idx int) {
 				g.emit(fmt.Sprintf("state %d 0", id), "state", false)
 				g.emit(fmt.Sprintf("hdown %d", id), "hdown", true)
 			}
+		}
+		if hookTable && len(g.w.tables["ks0"]) == 0 && r.Bool() {
+			install() // a ring change dropped the installed table
 		}
 		ks, tk := "-", "-"
 		if variant == 2 {
@@ -2386,12 +2486,13 @@ func (g *gen) historyScenario(kind string, ta bool, seq []int) {
 			}
 		}
 	}
-	// the replica table of keyspace 0: none / installed through the hook (a keyspace other than the session's: never
-	// recomputed, KF-C11-5a) / keyspace 0 IS the session keyspace with SimpleStrategy: recomputed by the code itself
-	// on every AddHost / RemoveHost that changes the policy's host list
+	// the replica table of keyspace 0: none / installed through the hook (lives until the next change of the policy's
+	// host list: keyspace 0 is unknown to the metadata, the table is dropped) / keyspace 0 IS the session keyspace with
+	// SimpleStrategy / keyspace 0 is ANOTHER keyspace with SimpleStrategy whose table the policy computed on
+	// KeyspaceChanged: both recomputed by the code itself on every AddHost / RemoveHost that changes its host list
 	mode := 0
 	if ta {
-		mode = []int{0, 0, 1, 1, 1, 2, 2, 3}[r.Intn(8)]
+		mode = []int{0, 0, 1, 1, 2, 2, 3, 4, 4, 4}[r.Intn(10)]
 	}
 	switch mode {
 	case 0:
@@ -2399,6 +2500,22 @@ func (g *gen) historyScenario(kind string, ta bool, seq []int) {
 	case 1:
 		addOthers()
 		g.emit("repl 0 150:1,2 250:2,3 350:3,1", "repl", false)
+	case 4:
+		// keyspace 0 is NOT the session keyspace (none, or keyspace 1), its replication is known and KeyspaceChanged(0)
+		// arrives before or after the other hosts: the policy computes the table itself and - repair of KF-C10-4 -
+		// recomputes it on every AddHost / RemoveHost that changes its host list
+		if r.Bool() {
+			g.emit("sessks 1", "sessks", false)
+		}
+		g.emit(fmt.Sprintf("ksmeta 0 %d", 1+r.Intn(3)), "ksmeta", false)
+		if r.Intn(3) == 0 {
+			g.emit("kschg 0", "kschg", true)
+			addOthers()
+		} else {
+			addOthers()
+			g.emit("kschg 0", "kschg", true)
+		}
+		g.emit("table 0", "table", false)
 	case 2:
 		// the session keyspace and its replication are known before the first AddHost
 		g.emit("sessks 0", "sessks", false)
@@ -2544,6 +2661,11 @@ func raceRun(r *vh.Rng, rounds int) string {
 			w.exec(fmt.Sprintf("host %d %d %d %d %d,%d", id, id, id%2, id%3, id*16, 5000+id*16))
 			w.exec(fmt.Sprintf("add %d", id))
 		}
+		// keyspace 0: a readable schema, so that every AddHost / RemoveHost of the run recomputes its table (updateAllReplicas)
+		// under the picks; the installed table is what the first picks see
+		w.exec("ksmeta 0 3")
+		w.exec("ksmeta 1 2")
+		w.exec("kschg 1")
 		w.exec("repl 0 100:1,2,3 2000:4,5,6 6000:7,8,1")
 		var wg, wgM sync.WaitGroup
 		stop := int32(0)
